@@ -742,11 +742,13 @@ def job_c05(job):
         lst = open_listing(path)
     except Exception as e:
         msg = str(e)[:150].replace('\n', ' | ')
-        if vspec.get('kind', 'orig') != 'orig' and type(e) is Exception and msg.startswith(READER_REJECTS):
-            # the reader refuses the file loudly (its own `raise Exception`): no table is exposed, the property
-            # says nothing; counted, and the model must refuse the same files (correspondence)
+        if vspec.get('kind', 'orig') != 'orig':
+            # the reader refuses the variant loudly: no table is exposed, the property says nothing about it;
+            # counted by exception class, and the model must refuse the same files with the same class (correspondence)
             st['variant-rejected-by-reader'] += 1
+            st['variant-rejected:' + type(e).__name__] += 1
             res['rejected'] = msg
+            res['rejected_class'] = type(e).__name__
             return res
         viol('open-raises:%s:%s' % (family, type(e).__name__), 'opening the listing raises %s: %s' % (type(e).__name__, msg))
         return res
@@ -964,7 +966,9 @@ class Timeout:
 
 # ====================================================================== property module interface
 
-THEOREMS = ['Props.C05.' + t for t in ['addressing_agrees', 'reversed_key_row']]
+THEOREMS = ['Props.C05.' + t for t in ['column_boundaries_correct', 'row_slicing_correct', 'field_value_printed', 'blank_field_is_zero',
+                                    'field_beyond_row_is_zero', 'line_terminator_ignored', 'autough2_row_split_correct',
+                                    'autough2_adjacent_numbers_merge', 'addressing_agrees', 'reversed_key_row']]
 LEVEL_TEXT = ''
 LEVEL_NOTE = ''
 TECHNIQUE = 'Lean 4 proof over an executable model of the listing reader + differential correspondence with the real reader + independent tokenizer oracle'
@@ -1201,9 +1205,10 @@ def correspond(ctx, res, jobs, results):
         if kind == 'rejected':
             f['cases'] += 1
             res.count('model:rejected-variants-compared')
-            if not (o[0] == 'exc' and o[1] == 'Exception'):
+            if not (o[0] == 'exc' and o[1] == r.get('rejected_class', 'Exception')):
                 f['disagreements'] += 1
-                res.disagreements.append(dict(facet='listing_file', case=case, model='open: %s' % (o[1] if o[0] == 'exc' else 'ok'), impl='open raises Exception: %s' % r['rejected']))
+                res.disagreements.append(dict(facet='listing_file', case=case, model='open: %s' % (o[1] if o[0] == 'exc' else 'ok'),
+                                              impl='open raises %s: %s' % (r.get('rejected_class'), r['rejected'])))
             continue
         if o[0] == 'exc':
             f['cases'] += 1
